@@ -468,8 +468,12 @@ pub fn parse_choice_text(input: &str) -> Result<ParsedChoiceText, CompilerError>
         let display = format!("{start_text}{choice_only_text}");
         let selected_text = if start_text.trim().is_empty() {
             end_text.trim_start().to_owned()
-        } else {
+        } else if end_tags.is_empty() {
             format!("{start_text}{end_text}").trim_end().to_owned()
+        } else {
+            // (tags follow: the space in front of them belongs to the text, as inklecate has it -
+            // it shows when glue joins the next line on)
+            format!("{start_text}{end_text}")
         };
         let mut selected_tags = start_tags.clone();
         selected_tags.extend(end_tags);
